@@ -10,7 +10,7 @@ IMPORTS = ("From Coq Require Import List Ascii String NArith Bool.\n"
 
 THEOREMS = ["policy_batch_no_dangling", "pod_batch_no_dangling", "sync_sets_exact", "sync_exact_partial_fresh",
             "policy_chains_exact", "sync_exact_partial_restart", "sync_idem_restart", "restart_pre_fresh", "run_keeps_shape",
-            "sync_exact_partial_written"]
+            "sync_exact_partial_written", "events_policy_added_exact"]
 REFUTED = ["sync_exact_refuted_stale_referenced", "sync_exact_refuted_stale_pod_chain", "sync_exact_refuted_nomatch_flip",
            "sync_idem_refuted_nomatch_flip", "sync_idem_refuted_conflicting_flags", "sync_exact_partial_needs_shape"]
 DEPS = ["Strs", "Nets", "Netfilter", "Policy", "PolicySpec", "NetfilterP", "PolicySetsP", "PolicyPodsP", "PolicyP", "PolicyRunP", "CorrBase",
@@ -33,7 +33,8 @@ MANIFEST = {
             "and the next Run changes nothing up to kernel_eqv), restart_pre_fresh (kernels without GLX state satisfy it), "
             "run_keeps_shape (the kernel such a Run leaves is again consistent and galaxy-shaped), sync_exact_partial_written (on every "
             "kernel written by galaxy's own successful Runs from a node without GLX state, for any sequence of clusters, the ONLY "
-            "hypothesis is partial_pre - none of the four recorded shapes; exact + foreign-untouched + idempotent + closed). "
+            "hypothesis is partial_pre - none of the four recorded shapes; exact + foreign-untouched + idempotent + closed), "
+            "events_policy_added_exact (the AddPolicy/UpdatePolicy handler = a Run: same guarantees). "
             "sync_exact_partial_needs_shape shows partial_pre alone is not sufficient on arbitrary consistent kernels (duplicate hook "
             "rule: never exact; GLX-POD rule pinning a stale set: first Run not exact, not idempotent). The FULL sync_exact / sync_idem are refuted by five vm_compute witnesses on the faithful model (K5, K5b, K5c, "
             "K5d; prior states produced by galaxy's own Run), each reproduced on the real code (corpus/C15.json). The model is tied to "
